@@ -805,7 +805,8 @@ class Session:
             if rand == self.ltk_rand and ediv == self.ltk_ediv:
                 return self.stk
         else:
-            return self.ltk
+            # None as long as this session has not computed or received a key
+            return getattr(self, 'ltk', None)
 
         return None
 
